@@ -376,7 +376,7 @@ func init() {
 
 func init() {
 	properties["C16"] = &property{
-		explanation: "Decides the 'decoders are total ... never an internally inconsistent object' mechanisms of C16 for the binary decoders of mat, stat/card and mathext/prng and for graph6/digraph6: DECODE.mul — a product of two decoded integers is preceded on every path by a division-based overflow guard; DECODE.range — a decoded integer used as a shift count or allocation size is range-checked in an error-returning branch on every path before that use; DECODE.len — a variable-length field decoded into the receiver is length-checked before success is returned; DECODE.selfcmp — no compatibility comparison has two sides denoting the same expression ('merges only with compatible sketches'); DECODE.gate — every exported graph6/digraph6 accessor passes IsValid before touching raw bytes (helpers that index without a length test are found by a must-pass analysis, not listed); TWIN.generated — hll64.go is the image of hll32.go. Found and repaired: rows*cols overflow in Dense.UnmarshalBinary[From], unvalidated p/register in HyperLogLog.UnmarshalBinary, the self-comparison in Union. Does NOT decide round-trip equality, the gocc/Ragel generated DOT and N-Quads parsers, or RDF canonicalisation.",
+		explanation: "Decides the 'decoders are total ... never an internally inconsistent object' mechanisms of C16 for the binary decoders of mat, stat/card and mathext/prng and for graph6/digraph6: DECODE.mul — a product of two decoded integers is preceded on every path by a division-based overflow guard; DECODE.range — a decoded integer used as a shift count or allocation size is range-checked in an error-returning branch on every path before that use; DECODE.len — a variable-length field decoded into the receiver is length-checked before success is returned; DECODE.selfcmp — no compatibility comparison has two sides denoting the same expression ('merges only with compatible sketches'); DECODE.gate — every exported graph6/digraph6 accessor passes IsValid before touching raw bytes (helpers that index without a length test are found by a must-pass analysis, not listed); DECODE.clone — the clone methods of the RDF canonicalisation state give every slice/map field fresh storage (a shared `ordered` slice makes the canonical labelling depend on recursion order); TWIN.generated — hll64.go is the image of hll32.go. Found and repaired: rows*cols overflow in Dense.UnmarshalBinary[From], unvalidated p/register in HyperLogLog.UnmarshalBinary, the self-comparison in Union. Does NOT decide round-trip equality, the gocc/Ragel generated DOT and N-Quads parsers, or RDF canonicalisation.",
 		assumptions: commonAssumptions,
 		run: func(tier string, res *core.Result) {
 			d := decode.Run(def, "./mat", "./stat/card", "./mathext/prng", "./graph/encoding/graph6", "./graph/encoding/digraph6")
@@ -388,6 +388,9 @@ func init() {
 			d.Floor("graph6_exported_methods", 14)
 			d.Floor("graph6_raw_accesses", 4)
 			res.Merge(d)
+			cl := decode.RunClone(def, "./graph/formats/rdf", "./stat/card", "./mat", "./mathext/prng")
+			cl.Floor("clone_methods", 2)
+			res.Merge(cl)
 			t := twin.Run(twin.Which{Generated: true, Prefixes: []string{"stat/card/"}})
 			t.Floor("generated_file_pairs", 1)
 			t.Floor("twin_declaration_pairs", 10)
@@ -489,6 +492,8 @@ func dump(argv []string) {
 	case "paramuse":
 		res = paramuse.Run(def, core.Pkgs(argv[1:]...))
 		res.Merge(paramuse.Run(core.Config{Tags: "noasm"}, core.Pkgs(argv[1:]...)))
+	case "clone":
+		res = decode.RunClone(def, argv[1:]...)
 	case "twin":
 		res = twin.Run(twin.Which{Generated: true, Bounds: true, ReuseAs: true, R3: true, Siblings: []string{"graph/iterator"}})
 	case "args":
